@@ -226,6 +226,14 @@ func runC09(t *testing.T, sched simrt.Schedule, prog c09Prog) ([]Violation, RunS
 				reject("chan-name")
 				return
 			}
+			if asChan && ok && !pud.Deleted && !pud.IsChan {
+				// a full member (e.g. a former reader who unsubscribed from chnX and was invited to grpX) using the
+				// channel name: there is no reader subscription for the marks to go to
+				// (the server writes them into the deleted reader row; not judged either way)
+				simrt.Probe("c09.chan_name_by_member")
+				p.Exp = nil
+				return
+			}
 			cur := model[e.Topic][e.User]
 			if cur == nil {
 				cur = &c09Marks{}
